@@ -21,6 +21,8 @@ pub struct FrameIn {
     pub header: FrameHeader,
     /// decoded samples of the frame, one plane per channel, frame-sized, nominal range
     pub planes: Vec<Vec<f64>>,
+    /// patch dictionary of the frame (applied to the decoded samples before blending)
+    pub patches: Vec<crate::patches::PatchRef>,
 }
 
 /// Composes frames in bitstream order; returns the canvas of every keyframe.
@@ -35,6 +37,16 @@ pub fn composite(img: &ImageHeader, frames: &[FrameIn]) -> Vec<Canvas> {
         let h = &f.header;
         let (fw, fh) = h.frame_size(img);
         let (fw, fh) = (fw as usize, fh as usize);
+        let patched;
+        let f = if f.patches.is_empty() {
+            f
+        } else {
+            let mut planes = f.planes.clone();
+            let premult: Vec<bool> = img.ec_info.iter().map(|e| e.alpha_associated && !e.all_default).collect();
+            crate::patches::apply_patches(&mut planes, fw, fh, n_colour, &premult, &f.patches, &|i| slots[i as usize].as_ref().map(|c| (c.w, c.h, c.planes.clone())));
+            patched = FrameIn { header: f.header.clone(), planes, patches: vec![] };
+            &patched
+        };
         let (x0, y0) = if h.eff_have_crop() && h.frame_type != FT_REFERENCE_ONLY { (h.x0 as i64, h.y0 as i64) } else { (0, 0) };
         if !h.normal_frame() {
             if h.frame_type == FT_REFERENCE_ONLY {
